@@ -87,7 +87,7 @@ func (g *replayGen) uintVal(label string) (uint64, bool) {
 
 // render builds a Go expression for the value labelled `label` of type t.
 func (g *replayGen) render(label string, t types.Type, depth int) (string, bool) {
-	if depth > 5 {
+	if depth > 8 {
 		return "", false
 	}
 	switch u := t.Underlying().(type) {
@@ -201,6 +201,11 @@ func (g *replayGen) render(label string, t types.Type, depth int) (string, bool)
 	case *types.Interface:
 		if raw, ok := g.vals[label+".isnil"]; ok && raw == "true" {
 			return "nil", true
+		}
+		return "", false
+	case *types.Signature:
+		if ref, ok := g.uintVal(label + ".ref"); ok && ref == 0 {
+			return fmt.Sprintf("(%s)(nil)", g.typeStr(t)), true
 		}
 		return "", false
 	case *types.Map:
@@ -326,6 +331,38 @@ func BuildReplay(prop string, fr *FnResult, o *Obligation) ReplayOutcome {
 	for i := 0; i < nres; i++ {
 		fmt.Fprintf(&body, "\tfmt.Printf(\"REPLAY-RESULT result%d = %%v\\n\", %s)\n", i, gots[i])
 	}
+	// objects reachable through pointer parameters: compare their scalar contents after the call
+	for _, q := range fr.Ctx.queries {
+		if !strings.HasPrefix(q.Label, "post:*") || q.Typ == nil {
+			continue
+		}
+		path := q.Label[len("post:*"):]
+		// path starts with the parameter name
+		for i, p := range fr.ParamTerms {
+			if !strings.HasPrefix(path, p.Name) || (len(path) > len(p.Name) && path[len(p.Name)] != '.' && path[len(p.Name)] != '[') {
+				continue
+			}
+			goName := fmt.Sprintf("a%d", i)
+			if sig.Recv() != nil && i == 0 {
+				goName = "recv"
+			}
+			expr := "(*" + goName + ")" + path[len(p.Name):]
+			if strings.Contains(expr, "*") && strings.Count(expr, "*") > 1 {
+				continue // nested pointers are not compared
+			}
+			var lit string
+			var ok bool
+			if _, _, isInt := isInteger(q.Typ); isInt {
+				lit, ok = g.intLit(q.Label, q.Typ)
+			} else if raw, has := g.vals[q.Label]; has && (raw == "true" || raw == "false") {
+				lit, ok = fmt.Sprintf("%s(%s)", g.typeStr(q.Typ), raw), true
+			}
+			if ok {
+				fmt.Fprintf(&body, "\tif %s != %s { mismatch(%q, %s, %s) }\n", expr, lit, q.Label, expr, lit)
+				nCmp++
+			}
+		}
+	}
 	var imps []string
 	g.imports["fmt"] = "fmt"
 	g.imports["testing"] = "testing"
@@ -397,12 +434,15 @@ func TestGovcReplay(t *testing.T) {
 	log := string(outb)
 	out.Ran = strings.Contains(log, "REPLAY-")
 	expectPanic := safetyKinds[o.Kind]
+	panicked := strings.Contains(log, "REPLAY-PANIC") && !strings.Contains(log, "REPLAY-RETURNED") // a panic inside the function itself
 	switch {
-	case expectPanic && strings.Contains(log, "REPLAY-PANIC"):
+	case g.incomplete:
+		// some input could not be rebuilt from the model: whatever the run does proves nothing
+	case expectPanic && panicked:
 		out.Confirmed = true
 	case !expectPanic && strings.Contains(log, "REPLAY-COMPARED mismatches=0") && nCmp > 0 && !g.incomplete:
 		out.Confirmed = true
-	case !expectPanic && strings.Contains(log, "REPLAY-PANIC"):
+	case !expectPanic && panicked:
 		// the real code panics where the contract expected a defined result: also a confirmed failure of the obligation
 		out.Confirmed = true
 	}
